@@ -202,6 +202,14 @@ type directive struct {
 	park    bool
 	setid   string
 	release chan struct{}
+	once    sync.Once
+}
+
+// free releases a parked hook (idempotent).
+func (d *directive) free() {
+	if d != nil && d.release != nil {
+		d.once.Do(func() { close(d.release) })
+	}
 }
 
 type link struct {
@@ -222,6 +230,7 @@ type world struct {
 	mu        sync.Mutex
 	all       []*sinfo
 	dirs      [2][]*directive
+	allDirs   []*directive
 	parked    chan *sinfo
 	links     []*link
 	idn       int
@@ -400,6 +409,7 @@ func (w *world) goClose(si *sinfo) chan struct{} {
 
 func (w *world) pushDirs(dS, dC *directive) {
 	w.mu.Lock()
+	w.allDirs = append(w.allDirs, dS, dC)
 	w.dirs[sideS] = []*directive{dS}
 	w.dirs[sideC] = []*directive{dC}
 	w.mu.Unlock()
@@ -521,18 +531,11 @@ func (w *world) teardown() {
 		c.Close()
 	}
 	w.mu.Lock()
-	for side := range w.dirs {
-		for _, d := range w.dirs[side] {
-			if d.release != nil {
-				select {
-				case <-d.release:
-				default:
-					close(d.release)
-				}
-			}
-		}
-	}
+	ds := append([]*directive(nil), w.allDirs...)
 	w.mu.Unlock()
+	for _, d := range ds {
+		d.free()
+	}
 	gates.Reset()
 	quiesce.Wait(w.qopt())
 	for _, si := range w.sessions() {
@@ -953,7 +956,7 @@ func (w *world) exec(o op) (out stepOut) {
 			}
 			core.Add("frames_preloaded_before_hook_return", 1)
 			if !w.quiesce() {
-				close(dS.release)
+				dS.free()
 				out.inconcl = "watchdog: not quiescent while the hook was parked"
 				return
 			}
@@ -965,7 +968,7 @@ func (w *world) exec(o op) (out stepOut) {
 				vs.add("handler-before-hooks", fmt.Sprintf("%s: %d handler(s) entered while its accept hook is still running", l.b.name(), n))
 			}
 			out.early = vs.vs
-			close(dS.release)
+			dS.free()
 			if ok, _ := w.await(l.sdone); !ok {
 				out.inconcl = "harness: the accept did not complete after the hook was released"
 				return
@@ -1422,20 +1425,12 @@ func doConcurrent(id string, path string, cd concDesc) {
 	done := make(chan struct{})
 	go func() { wg.Wait(); close(done) }()
 	finished := false
-	for i := 0; i < 40 && !finished; i++ {
-		select {
-		case <-done:
+	for i := 0; i < 10 && !finished; i++ {
+		ok, wd := w.await(done)
+		if ok {
 			finished = true
-		case <-time.After(100 * time.Millisecond):
-			q := quiesce.Wait(w.qopt())
-			select {
-			case <-done:
-				finished = true
-			default:
-				if q.Quiescent {
-					i = 1000
-				}
-			}
+		} else if !wd {
+			break // incomplete at quiescence
 		}
 	}
 	core.Add("evaluations", atomic.LoadInt64(&nops))
@@ -1486,9 +1481,9 @@ func doConcurrent(id string, path string, cd concDesc) {
 // gate scripts
 
 type scriptDesc struct {
-	Script  string `json:"script"`            // script class (fingerprint)
-	Kind    string `json:"kind"`              // implementation family
-	Point   string `json:"point,omitempty"`   // close.* point
+	Script  string `json:"script"`          // script class (fingerprint)
+	Kind    string `json:"kind"`            // implementation family
+	Point   string `json:"point,omitempty"` // close.* point
 	RdPoint string `json:"rd_point,omitempty"`
 	Order   string `json:"order,omitempty"`   // release order
 	Flavour string `json:"flavour,omitempty"` // cut-eof | cut-reset | remote-close
@@ -1864,12 +1859,12 @@ func runScript(w *world, sd scriptDesc) (vs []viol, inconcl string) {
 		select {
 		case b = <-w.parked:
 		case <-time.After(10 * time.Second):
-			close(dS.release)
+			dS.free()
 			return nil, "harness: the accept hook was not reached"
 		}
 		core.Add("frames_preloaded_before_hook_return", 1)
 		if !w.quiesce() {
-			close(dS.release)
+			dS.free()
 			return nil, "watchdog"
 		}
 		var set vset
@@ -1879,7 +1874,7 @@ func runScript(w *world, sd scriptDesc) (vs []viol, inconcl string) {
 		if n := len(b.stamps()); n > 0 {
 			set.add("handler-before-hooks", fmt.Sprintf("%s: %d handler(s) entered while its accept hook is still running", b.name(), n))
 		}
-		close(dS.release)
+		dS.free()
 		if sdone != nil {
 			if ok, _ := w.await(sdone); !ok {
 				return set.vs, "ServeConn has not returned at quiescence"
@@ -1911,23 +1906,23 @@ func runScript(w *world, sd scriptDesc) (vs []viol, inconcl string) {
 		dC := &directive{park: true, release: make(chan struct{})}
 		l, err := w.connect(nil, dC, via, false)
 		if err != "" {
-			close(dC.release)
+			dC.free()
 			return nil, "harness: " + err
 		}
 		select {
 		case <-w.parked:
 		case <-time.After(10 * time.Second):
-			close(dC.release)
+			dC.free()
 			return nil, "harness: the far hook was not reached"
 		}
 		if !l.b.established() {
-			close(dC.release)
+			dC.free()
 			return nil, infeasible("the accepting side is not established while the far hook is parked")
 		}
 		l.b.sess.Push(w.pushRoute, []byte("early"))
 		core.Add("frames_preloaded_before_hook_return", 1)
 		if !w.quiesce() {
-			close(dC.release)
+			dC.free()
 			return nil, "watchdog"
 		}
 		var set vset
@@ -1937,7 +1932,7 @@ func runScript(w *world, sd scriptDesc) (vs []viol, inconcl string) {
 		if n := len(l.a.stamps()); n > 0 {
 			set.add("handler-before-hooks", fmt.Sprintf("%s: %d handler(s) entered while its %s hook is still running", l.a.name(), n, l.a.via))
 		}
-		close(dC.release)
+		dC.free()
 		if ok, _ := w.await(l.cdone); !ok {
 			return set.vs, "the far side has not got through its hook at quiescence"
 		}
@@ -2008,7 +2003,7 @@ func doScript(id, path string, sd scriptDesc) {
 type discard struct{}
 
 func (discard) Output(calldepth int, msgBytes []byte, loggerLevel erpc.LoggerLevel) {}
-func (discard) Flush() error                                                     { return nil }
+func (discard) Flush() error                                                        { return nil }
 
 func main() {
 	flag.Parse()
